@@ -75,3 +75,22 @@ def declare(check, na):
     check('C38', 'fault_enumeration', 'crash-point enumeration over a provenance-tracking engine fake + partitioning sweep on the real function',
           'the real VariantDatasetCombiner is run to completion, stopped and resumed at every step boundary, at every operation inside save() and at sampled operations of run(); the final dataset must be built from exactly the given inputs once each; the real even-genome partitioning is swept over real contig tables and interval sizes',
           'trusted: vf/sim/fake_hl.py (provenance-tracking stand-in for the Hail engine and FS)')
+
+    check('C09', 'fault_enumeration', 'real client (aioclient + its retry layer) over a fake transport into the real front-end handlers; fault plans over the requests it sends; twin-run comparison',
+          'for generated submissions (fast and multi-bunch paths, first and later updates) every single-request fault {lost response, dropped request, duplicated delivery, foreign update interleaved} and sampled pairs are injected; the outcome is compared with the fault-free twin (batches, updates, jobs, groups, dependencies, counters, id ranges, client-computed ids)',
+          SQL_NOTE + '; lost response / dropped request are modelled as HTTP 503 after / before the handler ran')
+    check('C14', 'exploration', 'route x caller x target enumeration on the live route table with response + table-diff oracle',
+          'every registered route of the front end is called as 8 caller classes on up to 5 target batches through the real aiohttp router and decorators (auth service faked); a required denial must be an error response with byte-identical tables before and after',
+          'trusted: minimysql for the membership / owner filters, fake auth service, aiohttp_session shim; policy map written from the property statement; UI templates render through an inert stub')
+    check('C16', 'exploration', 'boundary event history + reference-FIFO and quiescent-point liveness oracles under virtual time',
+          'seeded schedules of the real FIFOWeightedSemaphore (2-12 jobs, ties, zero holds): never over capacity, no grant before the FIFO reference would grant, no fitting head waiter at any quiescent point',
+          'trusted: vf/sim/vloop.py, vf/sim/quiesce.py, a 20-line reference FIFO; cancellation is outside the property and not injected')
+    check('C24', 'exploration', 'admission history checked with exact arithmetic (sliding-window count + unused-admissible-time) under a controlled clock',
+          'seeded arrival patterns (bursts, steady, arrivals at expiry instants, non-representable windows) through the real RateLimiter with its clock redirected; no window over count beyond 1 ulp, no admissible stretch longer than 2 us left unused',
+          'trusted: virtual loop with one-ulp timer resolution, clock magnitude ~ time.time(), the two tolerances')
+    check('C26', 'exploration', 'lookup / load / cancel event history with bounded, fresh, single-flight and justified-failure oracles under virtual time',
+          'seeded schedules (<= 4 keys, capacity 1-3, load failures, cancellation of first and later callers while others wait, arrivals at exact expiry) through the real TimeLimitedMaxSizeCache',
+          'trusted: prometheus_async shim (transcribed, self-tested), virtual loop')
+    check('C40', 'exploration', 'boundary event history + capacity-conservation check at quiescent points + final acquire(max) probe, cancellation injected in every state',
+          'seeded schedules of the real WeightedSemaphore with cancellation of waiting, just-woken and holding tasks and raising bodies: never over capacity and no capacity consumed by nobody at any quiescent point',
+          'trusted: vf/sim/vloop.py, vf/sim/quiesce.py; a reference semaphore is used for classification only')
